@@ -143,7 +143,14 @@ func (ex *Exec) callCommon(cc *ssa.CallCommon, in *ssa.Call, p token.Pos) *Val {
 		// unknown function value
 		c.note("%s: call of unknown function value at %s: results and heap havoc'd", ex.fn.Name(), relPos(ex.pos(p)))
 		args := ex.argVals(cc)
-		_ = args
+		{
+			sig := cc.Signature()
+			var anames []string
+			for i := 0; i < sig.Params().Len(); i++ {
+				anames = append(anames, sig.Params().At(i).Name())
+			}
+			ex.assertCalls(exprName(cc.Value), anames, args, p)
+		}
 		c.heapHavocAll(ex.st)
 		ex.bumpAlloc()
 		ex.flushPendingHavoc()
